@@ -2,3 +2,14 @@ CONSTANT Reserved = {"False", "None", "True", "__peg_parser__", "all", "and", "a
 CONSTANTS Scope = "one" MaxFields = 1 MaxOps = 1 Mutant = "none"
 SPECIFICATION Spec
 INVARIANT Emit
+INVARIANT Inv_WF
+INVARIANT Inv_SameFields
+INVARIANT Inv_Attr
+INVARIANT Inv_AttrDistinct
+INVARIANT Inv_RoundTripOut
+INVARIANT Inv_RoundTripIn
+INVARIANT Inv_Presence
+INVARIANT Inv_OneofExclusive
+INVARIANT Inv_Json
+INVARIANT Inv_Enum
+INVARIANT Inv_Manifest
